@@ -272,7 +272,9 @@ class FieldWrapper(Wrapper):
             _arg_options.pop("metavar", None)
 
         elif utils.is_optional(self.type) or self.field.default is None:
-            _arg_options["required"] = False
+            if not self.field.metadata.get("positional"):
+                # (argparse doesn't accept `required` for positionals.)
+                _arg_options["required"] = False
 
             if utils.is_optional(self.type):
                 type_arguments = utils.get_args(self.type)
